@@ -18,6 +18,7 @@ from props.common import account, oracle_run
 import props.krylov_cases as kc
 
 DRIVERS = ["krylov"]
+TMO = 600   # seconds per driver shard: a diverging (mutated) solver makes the exact rationals explode
 MODEL = "krylov"
 TRUSTED_BASE = [
     "Extract_krylov.v: Z.ggcd / Z.gcd realised by zarith gcd (Krylov iterates have 10^4..10^5 digit rationals)",
@@ -40,9 +41,9 @@ TOL10 = F(1, 1024)
 def exact_cases(tier, seed):
     r = random.Random(seed * 1000 + 1)
     out = []
-    nsys = 5 if tier == "quick" else 14
     for solver in kc.SOLVERS:
         heavy = solver not in kc.SQRT_FREE
+        nsys = (12 if heavy else 30) if tier == "quick" else (30 if heavy else 80)
         for si in range(nsys):
             sym = kc.sym_needed(solver) or r.random() < 0.4
             n = r.choice([2, 3, 4, 5] if tier == "quick" else [2, 3, 4, 5, 6, 7, 8])
@@ -59,7 +60,8 @@ def exact_cases(tier, seed):
                 tol = r.choice([F(0), TOL10])
                 abstol = r.choice([kc.ABSTOL_MIN, kc.ABSTOL_MIN, F(0) if solver in kc.SQRT_FREE else kc.ABSTOL_MIN])
                 prm = dict(base, maxiter=k, tol=tol, abstol=abstol)
-                if prm["ca"] and k == 0: prm["ca"] = 0      # see probe_cases: check_after with maxiter = 0
+                # check_after with an empty loop (maxiter = 0 or eps = 0) is a known finding: dedicated probes only
+                if prm["ca"] and (k == 0 or (tol == 0 and abstol == 0)): prm["ca"] = 0
                 out.append(kc.solve_line("e%d" % len(out), solver, side, S, **prm))
     # dedicated exits: abstol dominating, ns_search with a tiny right-hand side, exact initial guess
     for solver in kc.SOLVERS:
@@ -90,13 +92,15 @@ def probe_cases(tier, seed):
         out.append(kc.solve_line("p%d" % len(out), solver, "right", S, maxiter=3, tol=TOL10, M=2, L=1, s=2))
     S = kc.make_sys(r, 3, False, "id", x0zero=False)
     out.append(kc.solve_line("p%d" % len(out), "bicgstab", "right", S, maxiter=0, tol=TOL10, ca=1))
+    S = kc.make_sys(r, 4, False, "diag", x0zero=False)
+    out.append(kc.solve_line("p%d" % len(out), "bicgstab", "left", S, maxiter=2, tol=F(0), abstol=F(0), ca=1))
     return out
 
 
 def double_cases(tier, seed):
     r = random.Random(seed * 1000 + 3)
     out = []
-    nsys = 3 if tier == "quick" else 10
+    nsys = 6 if tier == "quick" else 20
     for solver in kc.SOLVERS:
         for si in range(nsys):
             n = r.choice([30, 80, 150] if tier == "quick" else [30, 100, 200, 300])
@@ -133,10 +137,10 @@ def run(ctx, cases_override=None):
     by_id = {l.split(" ", 1)[0]: l for l in lines}
 
     # 1. exact runs of the implementation (all eight) and of the model (the modelled five)
-    impl = ctx["run_driver"](ctx["cpp"]["krylov"], exact)
+    impl = ctx["run_driver"](ctx["cpp"]["krylov"], exact, timeout=TMO)
     account(ctx, exact, impl)
     mlines = [l for l in exact if l.split(" ", 3)[2] in kc.MODELLED]
-    model = ctx["run_driver"](ctx["model"], mlines)
+    model = ctx["run_driver"](ctx["model"], mlines, timeout=TMO)
     for l in mlines:
         cid, op, solver = l.split(" ", 3)[:3]
         a, b = impl.get(cid), model.get(cid)
@@ -165,7 +169,7 @@ def run(ctx, cases_override=None):
 
     # 3. double build, long double recomputation
     if dbl:
-        dres = ctx["run_driver"](ctx["cpp"]["krylov"], dbl)
+        dres = ctx["run_driver"](ctx["cpp"]["krylov"], dbl, timeout=TMO)
         account(ctx, dbl, dres, nontrivial=lambda op, p, o: bool(o) and o.startswith("OK"))
         conv = 0
         for l in dbl:
@@ -179,15 +183,17 @@ def run(ctx, cases_override=None):
 
 
 def classify(fail):
-    """signatures of the known deviations (see known_findings.json)"""
+    """signatures of the known deviations (known_findings.d/C01-*.json)"""
     sig = {}
     case = fail.get("case") or ""
     tk = case.split(" ")
     orc = (fail.get("oracle") or {}).get("result") or ""
-    if len(tk) > 6 and fail.get("op") == "o.truth":
+    if len(tk) > 10 and fail.get("op") == "o.truth" and tk[1] == "solve":
         solver = tk[2]
+        impl = (fail.get("impl") or "").split(" ")
         if orc.startswith("FAIL trivial-exit-on-nonzero-rhs"):
             sig = dict(site="trivial-solution exit", kind="tiny-nonzero-rhs")
-        elif solver == "bicgstab" and tk[5] == "0" and tk[9] == "1" and orc.startswith("FAIL reported"):
-            sig = dict(site="bicgstab check_after", kind="maxiter0-returns-2eps")
+        elif solver == "bicgstab" and tk[9] == "1" and impl[:1] == ["0"] and orc.startswith("FAIL reported"):
+            # check_after = 1 and zero iterations made: the placeholder 2*eps was returned
+            sig = dict(site="bicgstab check_after", kind="placeholder-returned")
     return sig
